@@ -164,15 +164,14 @@ func (h *Harness) RandomProgs(n int) []*report {
 // batches judges batches of cases concurrently and keeps their reports in
 // the order the batches were started.
 type batches struct {
-	wg  sync.WaitGroup
-	res [][]*report
+	wg    sync.WaitGroup
+	slots []*[]*report
 }
 
 func (b *batches) start(h *Harness, cases []*Case, label string) {
-	i := len(b.res)
-	b.res = append(b.res, nil)
+	slot := new([]*report)
+	b.slots = append(b.slots, slot)
 	b.wg.Add(1)
-	res := b.res
 	go func() {
 		defer b.wg.Done()
 		defer func() {
@@ -180,16 +179,15 @@ func (b *batches) start(h *Harness, cases []*Case, label string) {
 				h.ctx.ToolError("harness panic judging %s: %v\n%s", label, p, debug.Stack())
 			}
 		}()
-		res[i] = h.Judge(cases, label)
+		*slot = h.Judge(cases, label)
 	}()
-	_ = res
 }
 
 func (b *batches) wait() []*report {
 	b.wg.Wait()
 	var all []*report
-	for _, r := range b.res {
-		all = append(all, r...)
+	for _, s := range b.slots {
+		all = append(all, (*s)...)
 	}
 	return all
 }
@@ -239,6 +237,17 @@ func (h *Harness) Judge(cases []*Case, label string) []*report {
 	if err != nil {
 		ctx.ToolError("%v", err)
 		return nil
+	}
+	if p := os.Getenv("VERIF_C04_DUMP_ALL"); p != "" {
+		h.mu.Lock()
+		if f, err := os.OpenFile(p, os.O_APPEND|os.O_CREATE|os.O_WRONLY, 0o644); err == nil {
+			for _, c := range ok {
+				b, _ := json.Marshal(map[string]interface{}{"family": c.Family, "feature": c.Feature, "verdict": c.Verdict, "reason": c.Reason, "src": c.Src(), "data": c.Prog.Data, "go": c.Go, "js": c.JSObs})
+				f.Write(append(b, '\n'))
+			}
+			f.Close()
+		}
+		h.mu.Unlock()
 	}
 	var reps []*report
 	for _, c := range ok {
